@@ -713,7 +713,7 @@ func replay(c *fw.Ctx, raw json.RawMessage) []fw.Viol {
 		}
 		return nil
 	}
-	if cs.Part == "recursion" || cs.Part == "recursion2" {
+	if cs.Part == "recursion" || cs.Part == "recursion2" || cs.Part == "recursion3" {
 		fs = checkGraph(*cs.Graph, optsFromBits(cs.Opts).Recursion, nil)
 	} else {
 		tree, where := cs.program()
@@ -731,7 +731,7 @@ func init() {
 	fw.Register(&fw.Prop{
 		ID:    "C09",
 		Level: "exploration",
-		Rule: "lists: every parameter list of length <= 4 over {required, optional, *args, bare *, **kwargs, duplicate names} in a def and a lambda, every argument list of length <= 4 over {positional, two keyword names, keyword with a nested keyword call, positional nested call, *, **} alone and after a warm-up call; 15 option-sensitive programs (two of them use a set predeclared by the application, which no option gates) x 64 option vectors x 7 API entry points; call graphs entered from module top level, by the host on an empty stack, and with their second-closure edges leading into a second instance of the same Program (initialised twice); static: every base program (probe(); load; global; a chain of containers from {def+call, for, if-arm, else-arm, while} around a leaf block that uses every expression and simple-statement form; " +
+		Rule: "lists: every parameter list of length <= 4 over {required, optional, *args, bare *, **kwargs, duplicate names} in a def and a lambda, every argument list of length <= 4 over {positional, two keyword names, keyword with a nested keyword call, positional nested call, *, **} alone and after a warm-up call; 15 option-sensitive programs (two of them use a set predeclared by the application, which no option gates) x 64 option vectors x 7 API entry points; call graphs entered from module top level, by the host on an empty stack, with their second-closure edges leading into a second instance of the same Program (initialised twice), and rendered without any call expression (every function entered from an operator or index on a value of the application); static: every base program (probe(); load; global; a chain of containers from {def+call, for, if-arm, else-arm, while} around a leaf block that uses every expression and simple-statement form; " +
 			"quick: all 6 chains of length <=1 with every plant, then the 25 chains of length 2 with statement plants only; thorough: all 31 chains of length <=2 with every plant, then the 125 chains of length 3) " +
 			"x {unmodified; each of 69 statement plants inserted at every index of every block; each of 39 expression plants wrapped as (PLANT, X)[1] around every r-value expression node X} x all 64 FileOptions vectors; " +
 			"plants are rule-breaking constructs (undefined name, break/continue/return/load out of place, if/for/while at top level, while, set, rebinding by assignment/def/load/for/augmented/tuple, bad parameter lists, bad argument lists, 256 arguments, compound or non-assignable targets) and legal look-alikes (255 arguments, keyword-only forms, forward references); " +
